@@ -38,7 +38,7 @@ TARGETS = [".", "..", "../..", "a", "a/..", "b", "../b", "${JAIL}", "${JAIL}/a",
 def plan(tier):
     if tier == "thorough":
         return {"n": None, "budget_s": int(os.environ.get("VERIF_BUDGET_S", "900")), "case_timeout": 120}
-    return {"n": 3000, "budget_s": 170, "case_timeout": 60}
+    return {"n": 12000, "budget_s": 170, "case_timeout": 60}
 
 
 def gen_case(rng: Rng, i: int, tier: str):
@@ -78,6 +78,14 @@ def gen_case(rng: Rng, i: int, tier: str):
         if r.chance(0.3):
             r.shuffle(chain)
         entries = chain + (entries[:1] if r.chance(0.3) else [])
+    elif r.chance(0.2):
+        # directed: the same name several times (py7zr renames later duplicates), including names that canonicalise to the
+        # destination itself, and a directory later replaced by a link of the same name
+        nm = r.pick([".", "a/..", "a", "a/b", "b/../a", "", "./."])
+        dup = [{"name": nm, "kind": r.pick(["file", "dir", "symlink"]), "data": "payload-d%d" % k, "target": r.pick(["..", ".", "a", "${OUT}"])} for k in range(r.randint(2, 3))]
+        entries = dup + entries[: r.randint(0, 2)]
+        if r.chance(0.5):
+            r.shuffle(entries)
     data_n = sum(1 for e in entries if e["kind"] != "dir")
     split = r.chance(0.4) and data_n > 1
     return {"entries": entries, "multi_folder": split, "dest": r.pick(["abs", "rel", "none"]), "prepop": r.pick([None, None, "files"]),
